@@ -74,6 +74,13 @@ impl Bus {
 
 pub type SeamHook = Arc<dyn Fn(usize, bool) + Send + Sync>;
 
+thread_local! {
+    /// What the signer's own client code does with rcgen while it is being asked for a
+    /// signature (a KMS proxy that issues itself a short-lived client certificate, say):
+    /// taken and run once by the next `sign` call on this thread.
+    pub static NESTED: std::cell::RefCell<Option<Box<dyn FnOnce()>>> = const { std::cell::RefCell::new(None) };
+}
+
 pub struct SimSigner {
     pub slot: usize,
     pub key: Arc<SimKey>,
@@ -91,6 +98,9 @@ impl rcgen::RemoteKeyPair for SimSigner {
     fn sign(&self, msg: &[u8]) -> Result<Vec<u8>, rcgen::Error> {
         if let Some(h) = &self.hook {
             h(self.slot, false);
+        }
+        if let Some(f) = NESTED.with(|n| n.borrow_mut().take()) {
+            f();
         }
         let (seq, fault) = {
             let mut st = self.bus.0.lock().unwrap();
